@@ -3,9 +3,11 @@
 use crate::engine::{par_range, Acc, Ctx, Report, Tier};
 use serde_json::{json, Value};
 
+pub mod c01;
 pub mod c02;
 pub mod c13;
 pub mod libx;
+pub mod sigh;
 
 pub struct Prop {
     pub run: fn(&Ctx) -> Report,
@@ -17,7 +19,10 @@ pub struct Prop {
 
 pub fn lookup(id: &str) -> Option<Prop> {
     Some(match id {
+        "C01" => c01::PROP,
         "C02" => c02::PROP,
+        "C03" => sigh::PROP_C03,
+        "C10" => sigh::PROP_C10,
         "C13" => c13::PROP,
         _ => return None,
     })
